@@ -5,15 +5,13 @@
 use crate::store::RecStore;
 use crate::{Cfg, Pattern};
 use hxlib::util::Rng;
-use lance_io::object_writer::ObjectWriter;
-use lance_io::traits::Writer;
+use crate::WLike;
 use object_store::path::Path;
 use object_store::ObjectStore;
 use serde_json::{json, Value};
 use std::pin::Pin;
 use std::sync::Arc;
 use std::task::{Context, Poll};
-use tokio::io::AsyncWrite;
 
 pub const KNOWN_RESET: &str = "Known_C31_conn_reset_retry";
 
@@ -99,13 +97,13 @@ enum PollR {
     Panic,
 }
 
-struct Drv {
+struct Drv<W: WLike> {
     cfg: Cfg,
     spec: Spec,
     pat: Arc<Pattern>,
     store: RecStore,
     path: Path,
-    writer: Option<ObjectWriter>,
+    writer: Option<W>,
     rng: Rng,
     accepted: u64,
     last_cursor: u64,
@@ -127,7 +125,7 @@ async fn settle() {
     }
 }
 
-impl Drv {
+impl<W: WLike> Drv<W> {
     fn fail(&mut self, class: Option<&str>, what: String) {
         self.out.failures.push((class.map(|s| s.to_string()), what));
     }
@@ -146,7 +144,7 @@ impl Drv {
     async fn observe(&mut self, ev: (u64, u64, u64), r: Option<PollR>) {
         settle().await;
         let cursor = match self.writer.as_mut() {
-            Some(w) => w.tell().await.unwrap() as u64,
+            Some(w) => w.tell_().await as u64,
             None => self.last_cursor,
         };
         self.last_cursor = cursor;
@@ -233,7 +231,7 @@ impl Drv {
         }
     }
 
-    fn poll<T>(&mut self, f: impl FnOnce(Pin<&mut ObjectWriter>, &mut Context<'_>) -> Poll<std::io::Result<T>>, val: impl Fn(T) -> u64) -> PollR {
+    fn poll<T>(&mut self, f: impl FnOnce(Pin<&mut W>, &mut Context<'_>) -> Poll<std::io::Result<T>>, val: impl Fn(T) -> u64) -> PollR {
         let waker = futures::task::noop_waker();
         let mut cx = Context::from_waker(&waker);
         let w = self.writer.as_mut().unwrap();
@@ -332,7 +330,7 @@ impl Drv {
     async fn ev_abort(&mut self, ok: bool) {
         self.store.rec.lock().unwrap().plan.fail_abort = !ok;
         if let Some(w) = self.writer.as_mut() {
-            w.abort().await;
+            w.abort_().await;
         }
         self.closed = true;
         self.observe((7, ok as u64, 0), None).await;
@@ -482,7 +480,7 @@ impl Drv {
         }
         // the inherent ObjectWriter::shutdown(): WriteResult.size
         if self.shutdown_ready && !self.poisoned {
-            let res = self.writer.as_mut().unwrap().shutdown().await;
+            let res = self.writer.as_mut().unwrap().shutdown_().await;
             match res {
                 Ok(wr) => {
                     if wr.size as u64 != self.accepted {
@@ -566,16 +564,16 @@ impl Drv {
 }
 
 /// run one scenario on its own current-thread runtime
-pub fn run_scenario(cfg: Cfg, pat: Arc<Pattern>, spec: Spec) -> Outcome {
+pub fn run_scenario<W: WLike>(cfg: Cfg, pat: Arc<Pattern>, spec: Spec) -> Outcome {
     let rt = tokio::runtime::Builder::new_current_thread().enable_all().build().unwrap();
     rt.block_on(async move {
         let store = RecStore::new(true);
         let lstore = store.lance(spec.constant);
         let path = Path::from("dest/obj.bin");
-        let writer = ObjectWriter::new(&lstore, &path).await.unwrap();
+        let writer = W::new_(&lstore, &path).await;
         let seed = spec.seed;
         let out = Outcome { spec: spec.clone(), events: vec![], obs: vec![], failures: vec![], checks: 0, kinds: vec![], human: Value::Null };
-        let mut d = Drv {
+        let mut d: Drv<W> = Drv {
             cfg,
             spec,
             pat,
@@ -704,7 +702,7 @@ pub fn gen_specs(args: &hxlib::util::Args, cfg: Cfg, rng: &mut Rng) -> Vec<Spec>
     let mut specs = vec![];
     let i = cfg.init;
     // connection-reset scenarios first (they sleep 2..8 s per retry inside the writer)
-    let n_reset = args.vol(10, 48);
+    let n_reset = args.vol(if cfg.maxretry > 1 { 6 } else { 4 }, 24);
     for k in 0..n_reset {
         let total = *rng.pick(&[2 * i + 5, 3 * i, 3 * i + 17, 17 * crate::MIB, 2 * i]);
         let (chunks, cname) = chunking(cfg, total, rng);
@@ -719,7 +717,7 @@ pub fn gen_specs(args: &hxlib::util::Args, cfg: Cfg, rng: &mut Rng) -> Vec<Spec>
         let eager = *rng.pick(&[0u64, 0, 30, 100]);
         specs.push(Spec { chunks, eager_pct: eager, fault: Fault::PartReset(which), constant: false, zero_writes: false, flushes: rng.bool(), seed: rng.next(), label: format!("reset/{cname}") });
     }
-    let n = args.vol(110, 1500);
+    let n = args.vol(110, 600);
     for _ in 0..n {
         let mut total = totals(cfg, rng);
         let f = rng.below(100);
@@ -785,10 +783,43 @@ pub fn run_all(cfg: Cfg, pat: Arc<Pattern>, specs: Vec<Spec>) -> Vec<Outcome> {
                 if k >= n {
                     break;
                 }
-                let o = run_scenario(cfg, pat.clone(), specs[k].clone());
+                let o = if crate::mutant::mutant() != 0 {
+                    run_scenario::<crate::mutant::MutWriter>(cfg, pat.clone(), specs[k].clone())
+                } else {
+                    run_scenario::<lance_io::object_writer::ObjectWriter>(cfg, pat.clone(), specs[k].clone())
+                };
                 *results[k].lock().unwrap() = Some(o);
             });
         }
     });
     results.into_iter().map(|m| m.into_inner().unwrap().unwrap()).collect()
+}
+
+/// OBSERVATION ONLY (outside the model's domain, not an oracle): what the real writer does when the caller
+/// ignores an error returned by write_all and calls shutdown() anyway.  Part call #1 fails (not a reset).
+pub fn probe_shutdown_after_error(cfg: Cfg, pat: Arc<Pattern>) -> String {
+    use tokio::io::AsyncWriteExt;
+    let rt = tokio::runtime::Builder::new_current_thread().enable_all().build().unwrap();
+    rt.block_on(async move {
+        let store = RecStore::new(false);
+        store.rec.lock().unwrap().plan.part.insert(1, 1);
+        let lstore = store.lance(false);
+        let path = Path::from("probe/obj.bin");
+        let mut w = lstore.create(&path).await.unwrap();
+        let total = (3 * cfg.init + 11) as usize;
+        let data = pat.fill(0, total);
+        let r1 = w.write_all(&data).await.is_ok();
+        let r2 = w.shutdown().await.map(|r| r.size);
+        let head = store.inner.head(&path).await.ok().map(|m| m.size);
+        format!(
+            "observation (not part of the checked domain): part upload #1 fails; write_all ok={r1}; shutdown() called anyway -> {}; object at destination: {:?} of {} bytes offered; part calls {:?}",
+            match &r2 {
+                Ok(sz) => format!("Ok(size={sz})"),
+                Err(_) => "Err".to_string(),
+            },
+            head,
+            total,
+            store.rec.lock().unwrap().calls.iter().map(|c| (c.len, c.slot)).collect::<Vec<_>>()
+        )
+    })
 }
